@@ -539,6 +539,41 @@ def check_sticky_and_delegation(ctx, F):
             ctx.bad('R4', 'Reverse<B> delegates unchanged', b.defpath, 'body is not `self.0.%s(..)`' % b.name, loc=rules.loc(b), key=key)
     if n < 8:
         ctx.bad('R4', 'floor: Reverse delegations', REVERSE, 'only %d found' % n, key='R4/floor/reverse')
+    # sibling delegation on `self` must stay within the same instantiation (same Word, same Semantics)
+    fam = ('backends::ReadWords', 'backends::BoundedReadWords', 'backends::WriteWords', 'backends::BoundedWriteWords')
+    nsib = 0
+    for b in F.bodies:
+        if b.promoted is not None or b.dk != 'AssocFn' or b.impl_trait not in fam or not b.file.endswith('backends.rs'):
+            continue
+        own = _trait_args(b.impl_trait_ref)
+        for blk, t in b.calls():
+            c = callee(t)
+            if not c or c.get('trait') not in fam:
+                continue
+            a0 = t['args'][0] if t['args'] else None
+            if not a0 or a0['k'] not in ('copy', 'move'):
+                continue
+            # receiver is `self` itself (not self.0 / an inner backend)?
+            ev, paths = rules.evaluate(b)
+            if not paths:
+                continue
+            recv_self = False
+            for r in paths:
+                for e in r.events:
+                    if e['kind'] == 'call' and e['block'] == blk and e['args'] and e['args'][0][0] == 'ref' and e['args'][0][1] == (1, 'deref'):
+                        recv_self = True
+            if not recv_self:
+                continue
+            nsib += 1
+            theirs = [F.ty_s(a['ty']) if 'ty' in a else a.get('const') for a in c['args'][1:]]
+            key = 'R4/sibling-instantiation/%s->%s' % (b.defpath, c['def'])
+            if theirs[:len(own)] == own[:len(theirs)]:
+                ctx.ok('R4', 'query delegates to the sibling trait with the same type arguments', b.defpath, '%s<%s>' % (c['def'], ', '.join(map(str, theirs))), key=key)
+            else:
+                ctx.bad('R4', 'query delegates to the sibling trait with the same type arguments', b.defpath,
+                        'impl is for <%s> but it asks %s<%s>: the answer belongs to a different read/write semantics' % (', '.join(own), c['def'], ', '.join(map(str, theirs))),
+                        loc=rules.loc(b, t['span']['at']), key=key)
+    ctx.extra['sibling_delegations'] = nsib
     # provided query methods: is_exhausted == (remaining()==0), is_full == (space_left()==0)
     for trait, meth, q in (('backends::BoundedReadWords', 'is_exhausted', 'remaining'), ('backends::BoundedWriteWords', 'is_full', 'space_left')):
         bs = [b for b in F.bodies if b.promoted is None and b.trait == trait and b.name == meth and b.impl is None]
@@ -554,6 +589,34 @@ def check_sticky_and_delegation(ctx, F):
             ok = sym.mk_int(0) in ops and any(o[0] == 'call' and o[1] == trait + '::' + q for o in ops)
         (ctx.ok if ok else ctx.bad)('R4', 'provided query method is `%s() == 0`' % q, trait + '::' + meth,
                                     'default body returns %s' % (sym.show(r.ret) if r else '?'), key=key)
+
+
+def _trait_args(trait_ref):
+    """'<X as path::Trait<A, B>>' -> ['A', 'B'] (top-level split)."""
+    if not trait_ref or ' as ' not in trait_ref:
+        return []
+    t = trait_ref.rsplit(' as ', 1)[1]
+    if t.endswith('>'):
+        t = t[:-1]
+    if '<' not in t:
+        return []
+    inner = t[t.index('<') + 1:]
+    if inner.endswith('>'):
+        inner = inner[:-1]
+    out, depth, cur = [], 0, ''
+    for ch in inner:
+        if ch in '<([':
+            depth += 1
+        elif ch in '>)]':
+            depth -= 1
+        if ch == ',' and depth == 0:
+            out.append(cur.strip())
+            cur = ''
+        else:
+            cur += ch
+    if cur.strip():
+        out.append(cur.strip())
+    return out
 
 
 def run(ctx):
